@@ -296,6 +296,27 @@ fn test_hist(c: &HCase) -> TestResult {
         let ended = sm.end_rec.contains_key(&f);
         vensure!(d.end_reported.get(&f).copied().unwrap_or(false) == ended, "stream-end-missing", "stream {f}: end reported {:?}, traffic ends it: {ended}", d.end_reported.get(&f));
     }
+    // replies: whatever was emitted is a prefix of what is owed, and everything owed for records
+    // before the parser's current position has been emitted (a selection must not make the parser
+    // forget a management record it was in the middle of)
+    d.consume_output(usize::MAX)?;
+    let replies = wire::decode_replies(&d.out_log).map_err(|e| Fail::new("c04-output-malformed", e))?;
+    let covered = model::match_replies_prefix(&sm.replies, &replies).map_err(|e| Fail::new("c04-replies", e))?;
+    if let Ok(left) = d.p.clone().into_input() {
+        let cut = d.pos - left.len();
+        let mut off = pre_end;
+        let mut done_recs = 0;
+        for r in &body {
+            if off + r.wire_len() <= cut {
+                done_recs += 1;
+                off += r.wire_len();
+            } else {
+                break;
+            }
+        }
+        let owed = sm.replies.iter().take_while(|e| e.cause < done_recs).count();
+        vensure!(model::mandatory(&sm.replies[..covered]) >= model::mandatory(&sm.replies[..owed]), "c04-replies", "{} of the {} replies owed for the {done_recs} records already consumed were emitted", covered, owed);
+    }
     let premature = sm.order.len() == 2 && sm.end_rec.get(&T_STDIN).is_some_and(|&i| body[i].ty == T_DATA);
     Ok(Outcome::new(accepted_moves >= 1 && rejected >= 1)
         .label_if(premature, "premature-later-stream")
